@@ -396,7 +396,7 @@ def gates(obs, tier):
         and calls.get("load_and_downscale_old_chunk", 0) > 0,
         "poisoned_allocations_in_every_run": obs.get("poisoned_allocations", 0) > 0
         and obs.get("runs_without_poison_hit", 0) == 0,
-        "levels_compared": obs.get("levels_compared", 0) > 100,
+        "levels_compared": obs.get("levels_compared", 0) > 60,
         "fetch_factor_1_and_2": obs.get("fetch_factor_1", 0) > 0
         and obs.get("fetch_factor_2", 0) > 0,
         "border_chunks": obs.get("border_chunks", 0) > 0,
